@@ -8,6 +8,7 @@ import (
 	"fmt"
 	"io"
 	"math"
+	"sort"
 	"strings"
 	"testing"
 
@@ -325,6 +326,10 @@ func genC04(t *rapid.T) c04Case {
 				nm = pool[rapid.IntRange(0, len(pool)-1).Draw(t, "ei")]
 			}
 			lines = append(lines, vLine{Kind: vkEntry, Name: nm, Num: vGenNumAny(t, "num"), L: vGenEntryLayout(t, lo, "el")})
+		}
+		if wide && rapid.IntRange(0, 2).Draw(t, "widesorted") == 0 {
+			// a long record kept in ascending name order (repeated names next to each other)
+			sort.SliceStable(lines, func(a, b int) bool { return lines[a].Name < lines[b].Name })
 		}
 		d.Recs = append(d.Recs, vRec{Head: head, HL: vGenHeadLayout(t, lo, "hl"), Lines: lines})
 	}
